@@ -51,6 +51,13 @@ void myth_verif_fspin(const char *label);
 #define VL(p) myth_verif_id(MYTH_VERIF_NS_LOCK, (const void*)(p))
 #define VSQ(p) myth_verif_id(MYTH_VERIF_NS_SLEEPQ, (const void*)(p))
 #define VO(ns, p) myth_verif_id((ns), (const void*)(p))
+#define VMX(p) VO(MYTH_VERIF_NS_MUTEX, p)
+#define VCV(p) VO(MYTH_VERIF_NS_COND, p)
+#define VBR(p) VO(MYTH_VERIF_NS_BARRIER, p)
+#define VJC(p) VO(MYTH_VERIF_NS_JC, p)
+#define VUC(p) VO(MYTH_VERIF_NS_UNCOND, p)
+#define VON(p) VO(MYTH_VERIF_NS_ONCE, p)
+#define VFE(p) VO(MYTH_VERIF_NS_FELOCK, p)
 #define VQ(q) ((long)myth_verif_qrank((const void*)(q)))
 #define VA(p) myth_verif_addr((const void*)(p))
 #define MYTH_VERIF_WORKER(r) myth_verif_worker(r)
